@@ -30,8 +30,8 @@ ASSUMPTIONS = [
     'the package gamma): for an unstable liquid the dew equation has several roots and the inequality is not a '
     'theorem of the model',
     'tolerances: residual 1e-6 (solver: T_tol 1e-9 K, P_tol 1e-3 Pa, ytol 5e-12/1e-9); round trip |dT|<=1e-4 K, '
-    '|dP|<=1e-6 P + 2e-2 Pa (Chemical.Tsat stops at 1e-2 Pa); scale/permutation |dT|<=1e-6 K, |dP|<=1e-6 P, '
-    '|dy|<=1e-6; normalisation 1e-12',
+    '|dP|<=1e-6 P + 2e-2 Pa (Chemical.Tsat stops at 1e-2 Pa); scale/permutation |dT|<=1e-4 K, |dP|<=2e-6 P, '
+    '|dy|<=2e-6 (two results each within the residual tolerance); normalisation 1e-12',
 ]
 REQUIRED_CELLS = {'quick': ['op=bubP', 'op=bubT', 'op=dewP', 'op=dewT', 'pkg=ideal', 'pkg=dortmund', 'pkg=dpcf',
                             'z=zeros', 'z=trace', 'z=vertex', 'npos=1', 'npos>=2', 'order:judged',
@@ -159,6 +159,7 @@ class System:
         self.Pa = max([P_LO] + [float(c.Psat(self.Tlo)) for c in present])
         self.Pb = min([P_HI] + [float(c.Psat(self.Thi)) for c in present])
         self._gap = None
+        self._g3 = None
         lo_hull = min(p.Tmin for p in Psats) + 10.0
         hi_hull = max(p.Tmax for p in Psats) - 10.0
         self.xtrap = int(any(nonmonotone_outside_range(c, lo_hull, hi_hull) for c in present))
@@ -180,7 +181,20 @@ class System:
         r = f'pkg={self.pkg},npos={"1" if self.npos == 1 else "2+"},z={self.zkind}'
         if dew:
             r += f',gap={self.gap()}'
+        else:
+            r += f',g3={self.g3()}'
         return r + f',xtrap={self.xtrap}'
+
+    def g3(self):
+        """1 when the liquid of composition z has an activity coefficient > 1e3 for a present chemical (evaluated at
+        the middle of the T box): the ideal-solution initial guess of the bubble solver is then far from the answer
+        (DESIGN.md section 9 lists gamma > 1e3 as a pathological region)."""
+        if self._g3 is None:
+            self._g3 = 0
+            if self.pkg != 'ideal' and self.npos > 1:
+                g = np.ones(self.n) * np.asarray(self.th.Gamma(self.chems)(self.z / self.z.sum(), 0.5 * (self.Tlo + self.Thi)), float)
+                self._g3 = int(max(g[i] for i in self.pos) > 1e3)
+        return self._g3
 
     def key(self):
         pat = ''.join('0' if v == 0 else ('t' if v < 1e-5 else 'x') for v in self.z)
@@ -366,8 +380,10 @@ def check_point(ctx, s, op, T, P, w, site):
     else: ctx.metric_max(f'{tag}:residual(failing)', res)
     if not res <= RES_TOL:
         if op == 'dewT': region += ',' + guess_tag(s, P)
-        ctx.fail(f'{site}|{region}|residual', f'sum of implied fractions = {1 + res!r} or {1 - res!r} at T={T!r} P={P!r} '
-                                              f'{s.names} z={s.z.tolist()}')
+        # minor: 1e-6 < |sum-1| <= 1e-4 (noise of an unconverged inner iteration); gross: anything larger
+        kind = 'residual-minor' if res <= 1e-4 else 'residual'
+        ctx.fail(f'{site}|{region}|{kind}', f'sum of implied fractions = {1 + res!r} or {1 - res!r} at T={T!r} P={P!r} '
+                                            f'{s.names} z={s.z.tolist()}')
     ctx.metric_max(f'{tag}:fraction_dev', dev)
     if not dev <= RES_TOL:
         ctx.fail(f'{site}|{region}|fractions', f'returned {w.tolist()} implied {(implied / implied.sum()).tolist()}')
@@ -541,7 +557,7 @@ def prop_order(ch, ctx):
 def compare(ctx, site, region, a, b, what):
     (T1, P1, w1), (T2, P2, w2) = a, b
     dT = abs(T1 - T2); dP = abs(P1 - P2) / P1; dw = float(np.abs(w1 - w2).max())
-    ok = dT <= 1e-6 and dP <= 1e-6 and dw <= 1e-6
+    ok = dT <= 1e-4 and dP <= 2e-6 and dw <= 2e-6
     if ok:
         ctx.metric_max(site + ':dT', dT); ctx.metric_max(site + ':dP_rel', dP); ctx.metric_max(site + ':dw', dw)
     else:
@@ -560,7 +576,7 @@ def prop_scale(ch, ctx):
     base = solve(ctx, s, op, spec, site='scale.' + op)
     if is_dew(op): _reject_bad_dew(ctx, s, op, *base)
     require_box(ctx, s, base[0], base[1])
-    scaled = solve(ctx, s, op, spec, z=s.z * k, site='scale.' + op)
+    scaled = solve(ctx, s, op, spec, z=s.z * k, site='scale.' + op + '.k')
     compare(ctx, 'scale.' + op, s.region(is_dew(op)), base, scaled,
             f'z vs {k!r}*z at spec {spec!r}, {s.names} z={s.z.tolist()}')
     if s.npos >= 2:
